@@ -106,11 +106,10 @@ def items_for(tier):
             items += searches.scen_cycle(fl, alg, 3, m, ('filter',), prios=prios, transposes=trs)
         items += searches.scen_order(fl, 3, m + 1, ('none', 'foreach'), transposes=trs)
         items += searches.scen_order(fl, 3, m, ('filter',), transposes=trs)
-    try:
-        import containers
-        items += containers.c15_items(tier)
-    except ImportError:
-        pass
+    import containers
+    import serde_props
+    items += containers.c15_items(tier)
+    items += serde_props.c15_items(tier)
     return items
 
 
